@@ -4,7 +4,7 @@ From Coq Require Import ZArith QArith List Bool String Ascii.
 From Coq Require Import Floats.PrimFloat.
 From PAFCommon Require Import PyFloat PyNum.
 From Coq Require Import Permutation.
-From PAFC07 Require Import Gen Model Proofs1 Proofs2 Proofs3 Proofs4 Proofs5 Proofs6 Proofs7 Proofs8 Refute.
+From PAFC07 Require Import Gen Model Proofs1 Proofs2 Proofs3 Proofs4 Proofs5 Proofs6 Proofs7 Proofs8 Proofs9 Refute.
 Import ListNotations.
 Open Scope string_scope.
 Open Scope list_scope.
@@ -269,7 +269,32 @@ Theorem C07_sensitive_dot_join_refuted :
   forall ps, joined ps (fit_obj emcee dot_a None) = joined ps (fit_obj emcee dot_b None).
 Proof. exact dot_join_witness. Qed.
 
+(* ---------------- models derived by the library ---------------- *)
+(* mapper_from_prior_arguments / mapper_from_partial_prior_arguments (a grid-search cell) / prior passing / with_limits,
+   any number of times in a row, on any composition (positional collections at any depth): the fit of the derived model has
+   the identifier of the same composition written by hand with the new priors *)
+Theorem C07_derived_same_identifier : forall (md5 : string -> string) (ps : float -> string) (s : node)
+      (steps : list (list (Z * node))) (n : node) (tag : option string),
+  ident md5 ps (fit_obj s (derive_all steps n) tag) = ident md5 ps (fit_obj s (subst_all steps n) tag).
+Proof. exact derived_same_identifier. Qed.
+
+(* a copy in which every prior stands for itself has the identifier of the original *)
+Theorem C07_derived_copy_same_identifier : forall (md5 : string -> string) (ps : float -> string) (s n : node) (tag : option string),
+  ident md5 ps (fit_obj s (derive [] n) tag) = ident md5 ps (fit_obj s n tag).
+Proof. exact derived_copy_same_identifier. Qed.
+
+(* ... and what SearchOutput recomputes from the files of that fit is the same identifier (the folder it wrote to) *)
+Theorem C07_derived_roundtrip : forall (md5 : string -> string) (ps : float -> string) (s : node) (steps : list (list (Z * node)))
+      (n : node) (tag : option string),
+  reload_ok s = true -> reload_ok (subst_all steps n) = true ->
+  exists s' m', reload s = Some s' /\ reload (derive_all steps n) = Some m' /\
+                ident md5 ps (fit_obj_output s' m' tag) = ident md5 ps (fit_obj s (subst_all steps n) tag) /\
+                ident md5 ps (fit_obj_output s' m' tag) = ident md5 ps (fit_obj s (derive_all steps n) tag).
+Proof. exact derived_roundtrip. Qed.
+
 Print Assumptions C07_stable.
+Print Assumptions C07_derived_same_identifier.
+Print Assumptions C07_derived_roundtrip.
 Print Assumptions C07_stable_ids_labels.
 Print Assumptions C07_roundtrip_same_description.
 Print Assumptions C07_rounding_binary64.
